@@ -381,6 +381,33 @@ pub fn alias_chars(c: char) -> Vec<char> {
     (0..=16u32).filter(|p| *p != x >> 16).filter_map(|p| char::from_u32((x & 0xFFFF) | (p << 16))).collect()
 }
 
+/// `x` and `y` (a code point and one of its aliases, two neighbours ...) far apart and close
+/// together inside a LONG label: x F^120 y, F^120 x y, x F^30 y F^90 and the same with the two
+/// exchanged (F = `a`). Fast paths, per-call memo tables and bulk lookups that are only switched
+/// on for labels above some size never see the two-character labels of the sweeps.
+pub fn long_pair_strings(x: char, y: char) -> Vec<String> {
+    let mut out = Vec::with_capacity(6);
+    for (p, q) in [(x, y), (y, x)] {
+        let mut s = String::with_capacity(136);
+        s.push(p);
+        s.extend(std::iter::repeat('a').take(120));
+        s.push(q);
+        out.push(s);
+        let mut s = String::with_capacity(136);
+        s.extend(std::iter::repeat('a').take(120));
+        s.push(p);
+        s.push(q);
+        out.push(s);
+        let mut s = String::with_capacity(136);
+        s.push(p);
+        s.extend(std::iter::repeat('a').take(30));
+        s.push(q);
+        s.extend(std::iter::repeat('a').take(90));
+        out.push(s);
+    }
+    out
+}
+
 /// Run `f` on every scalar value in ascending and then in descending order ON ONE THREAD:
 /// the history a per-thread cache, counter or lazily grown table sees when one caller works
 /// through the whole code space (slot-number wrap, eviction, rehash after many distinct keys).
